@@ -297,11 +297,16 @@ func c13Record(tier string, seed int64, emit func(interface{})) {
 			}
 			return out
 		}
-		text := fasta.Build(recs)
-		for _, via := range []string{"read", "readconc", "readgz", "readgzconc"} {
-			cap := []int{0, 1, 100}[rng.Intn(3)]
-			got, closes, pm := readVia(via, text, cap, rng)
-			emit(map[string]interface{}{"k": "rt", "via": via, "cap": cap, "written": digest(toRecs(recs)), "got": digest(got), "closes": closes, "panic": pm != "", "msg": pm})
+		// ... and one of low complexity only (homopolymer, short tandem repeat): it inflates a thousandfold
+		low := []fasta.Fasta{{Name: "polyA", Sequence: strings.Repeat("A", 300000+rng.Intn(50000))},
+			{Name: "str", Sequence: strings.Repeat("ACGT", 50000+rng.Intn(9000))}, {Name: "tail", Sequence: "GATTACA"}}
+		for _, rs := range [][]fasta.Fasta{recs, low} {
+			text := fasta.Build(rs)
+			for _, via := range []string{"read", "readconc", "readgz", "readgzconc"} {
+				cap := []int{0, 1, 100}[rng.Intn(3)]
+				got, closes, pm := readVia(via, text, cap, rng)
+				emit(map[string]interface{}{"k": "rt", "via": via, "cap": cap, "written": digest(toRecs(rs)), "got": digest(got), "closes": closes, "panic": pm != "", "msg": pm})
+			}
 		}
 	}
 	var pendingRT []func()
